@@ -6,10 +6,12 @@
 // by P (or by Q) returns the rounded quotient up to an error of at most 1 per coefficient."
 //
 // Oracles (per coefficient, ONE integer for all destination moduli):
-//   up:   out ≡ xc + e·S (mod every destination modulus) for a single e in {-1,0,1}; e = 0 when 4|xc| < S
-//         (xc = centred representative of the input modulo the source modulus S);
-//   down: out ≡ round(x/D) + e (mod every destination modulus) for a single e in {-1,0,1}
-//         (D = P resp. Q is odd, so round has no ties; a centred negative x gives the same quotient mod Q resp. P).
+//
+//	up:   out ≡ xc + e·S (mod every destination modulus) for a single e in {-1,0,1}; e = 0 when 4|xc| < S
+//	      (xc = centred representative of the input modulo the source modulus S);
+//	down: out ≡ round(x/D) + e (mod every destination modulus) for a single e in {-1,0,1}
+//	      (D = P resp. Q is odd, so round has no ties; a centred negative x gives the same quotient mod Q resp. P).
+//
 // Outputs are compared as residues (ModUpExact documents values in [0,2p-1]; the callers state no range).
 package main
 
